@@ -721,6 +721,30 @@ def scopefill(repo):
                                     "reference to them fails with 'No candidate' (abbreviations of anonymous-bits members, used by "
                                     "their siblings, have synthetic locations)", m.rel, parent.lineno, f.name)
                 node = parent
+    # scopes only grow: a duplicate definition is detected by finding the earlier entry still there
+    for f in m.top_funcs():
+        params = {a.arg for a in f.node.args.args}
+        scopes = {p for p in params if "scope" in p}
+        if not scopes:
+            continue
+        res.instances += 1
+        for n in walk_no_nested_funcs(f.node):
+            tgt = None
+            if isinstance(n, ast.Delete):
+                for t in n.targets:
+                    if isinstance(t, ast.Subscript):
+                        tgt = t.value
+            elif isinstance(n, ast.Call) and isinstance(n.func, ast.Attribute) and n.func.attr in ("pop", "popitem", "clear"):
+                tgt = n.func.value
+            if tgt is None:
+                continue
+            root = tgt
+            while isinstance(root, (ast.Attribute, ast.Subscript)):
+                root = root.value
+            if isinstance(root, ast.Name) and (root.id in scopes or "scope" in root.id):
+                res.add(f"{m.rel}|{f.name}|remove", f"{f.name} removes an entry from a scope (`{ast.unparse(n)[:70]}`): the duplicate-name "
+                        "check relies on finding the earlier definition in the scope, so a name defined twice is then accepted "
+                        "and silently bound to the later definition", m.rel, n.lineno, f.name)
     if res.instances < 5 and not res.findings:
         raise AnalysisError(f"only {res.instances} scope insertions found")
     res.analysed = [m.rel]
